@@ -523,6 +523,35 @@ def unit_dispatch():
         c.check("nn.Module_callable_object", type(pf.get_pure_function(nobj)) is pf.TorchNNPureFunction)
         p = pf.get_pure_function(emethod)
         c.check("PureFunction_passes_through", pf.get_pure_function(p) is p)
+        # an object that is both an EditableModule and a torch.nn.Module declares its tensors through getparamnames
+        # (they need not be registered Parameters): it is handled as an EditableModule
+        import torch as _t
+
+        class Both(xitorch.EditableModule, _t.nn.Module):
+            def __init__(self):
+                _t.nn.Module.__init__(self)
+                self.derived = tensors[0]
+
+            def forward(self, x):
+                return x
+
+            def getparamnames(self, methodname, prefix=""):
+                return [prefix + "derived"]
+        bobj = Both()
+        pb = pf.get_pure_function(bobj.forward)
+        c.check("method_of_an_object_that_is_both_kinds_is_handled_as_EditableModule", type(pb) is pf.EditableModulePureFunction
+                and len(pb.objparams()) == 1 and pb.objparams()[0] is tensors[0])
+        # identity test used to skip substitutions: true only when EVERY position holds the same object
+        import itertools as _it
+        objs = [object() for _ in range(4)]
+        okall = True
+        for n_ in range(0, 4):
+            for pat in _it.product((True, False), repeat=n_):
+                a_ = objs[:n_]
+                b_ = [a_[i] if same else object() for i, same in enumerate(pat)]
+                if pf._check_identical_objs(a_, b_) != all(pat):
+                    okall = False
+        c.check("bounded[lists up to 3].identical_objs_is_true_iff_all_positions_hold_the_same_object", okall, kind="bounded")
         c.check("function_has_no_objparams", pf.get_pure_function(plain).objparams() == [])
 
         class Other(object):
